@@ -16,6 +16,59 @@ CLAIMED = {
     note=NOTE_COMMON + " OS symlink resolution is outside the string theorems.",
     technique="Lean 4 proof over translated source function + exhaustive model/implementation correspondence",
     ref="§5 C06"),
+ "C03": dict(
+    text=("Lean theorems for all observations/registrations: the check verdict is Y/X/N exactly per the rule (registered size none/0/n), "
+          "the block/chunk loop of _md5sum_file feeds the hash exactly the content for every content and positive block/chunk size, "
+          "accepted digests are stored as 32 lower-case hex digits of the same value. Tie: registrations made through the real CLI, real "
+          "check_async on real files around block/chunk boundaries with damage, hashlib recorder, exhaustive validator strings."),
+    note=NOTE_COMMON + " MD5 is a parameter (hashlib's incremental law assumed).",
+    technique="Lean 4 proof (case analysis, induction over blocks) + differential correspondence through the real CLI and check task",
+    ref="§5 C03"),
+ "C10": dict(
+    text=("Lean theorems over an abstract Task/Worker model for every fault plan (DB error in the body or in any subset of clean-ups): "
+          "every pending clean-up starts exactly once, task_done exactly once, no global abort, requeue iff requested, worker exits to be "
+          "respawned; pool check restores every slot; the retry mixin attempts at most twice and retries exactly when allowed. Tie: real "
+          "Worker.run/Task/WorkerPool/RetryOperationalError executed for every fault position of small shapes and random tasks."),
+    note=NOTE_COMMON + " URL databases cannot be opened with peewee 4.5.1 (F8); retry checked over a scripted base class.",
+    technique="Lean 4 proof over fault plans + exhaustive fault-position correspondence on the real worker",
+    ref="§5 C10"),
+ "C11": dict(
+    text=("Lean theorems for every operation sequence over any key set (any number of threads; one op = one critical section): the queue's "
+          "redundant counters equal the truth (QInv), delivered ⊎ queued ⊎ deferred ⊎ discarded = accepted (exactly once), per-FIFO "
+          "order, truthful sizes, idle iff nothing queued/running, join leaves only when drained and is never left un-notified. Tie: real "
+          "queue under a deterministic scheduler, every private field compared after every critical section."),
+    note=NOTE_COMMON + " threading.Lock/Condition semantics as implemented by the cooperative shim; OS scheduler fairness.",
+    technique="Lean 4 proof (inductive invariant with ghost history) + schedule-controlled correspondence",
+    ref="§5 C11"),
+ "C12": dict(
+    text=("Lean theorems: exclusive items are delivered only into an idle FIFO and lock it until task_done; the chosen FIFO is eligible with "
+          "minimal in-progress count; deferrals are promoted exactly when due; a yielding task is re-put with the same key/exclusivity; "
+          "clean-ups run exactly once after the final step. Tie: real queue under the scheduler + real Task/Worker runs."),
+    note=NOTE_COMMON + " virtual clock replaces time.monotonic; Python set iteration order is an observed input.",
+    technique="Lean 4 proof + schedule-controlled correspondence",
+    ref="§5 C12"),
+ "C13": dict(
+    text=("Lean theorems for any number of threads and every schedule of critical sections: up/down never coexist, re-entrancy, opposite "
+          "request and foreign release rejected, parked un-notified threads are genuinely blocked (no lost wake-up), some thread can always "
+          "step (no deadlock), expired timed waiters return. Counter-example theorem for the pinned two-lock structure. Tie: real "
+          "UpDownLock under the deterministic scheduler (exhaustive binary schedules for the F3 pair, random programs)."),
+    note=NOTE_COMMON + " mutex/condition semantics of the shim; fairness of the OS scheduler.",
+    technique="Lean 4 proof (inductive invariant over critical sections) + schedule-controlled correspondence",
+    ref="§5 C13"),
+ "C15": dict(
+    text=("Lean theorems for every copy table, shortfall, pending set and node type: no removable copy is selected without pressure, "
+          "selection is an id-ordered sub-list, a removable copy is selected iff the shortfall remaining after the copies queued before it "
+          "is positive, released non-pending copies are all selected, batches concatenate to the selection. Tie: real update_delete."),
+    note=NOTE_COMMON + " space values restricted to KiB-exact floats.",
+    technique="Lean 4 proof (induction over the ordered pass) + differential correspondence on SQLite",
+    ref="§5 C15"),
+ "C16": dict(
+    text=("Lean theorems for every rule graph/copy table: the requests created are exactly one per firing autosync rule, the released copies "
+          "exactly those of firing autoclean rules, self-loops ignored, everything else unchanged; counter-example for the pinned code. "
+          "Tie: real post_add on SQLite over random graphs."),
+    note=NOTE_COMMON,
+    technique="Lean 4 proof (exact characterisation + frame) + differential correspondence on SQLite",
+    ref="§5 C16"),
  "C19": dict(
     text=("Lean theorems for all tables, cursors, batch sizes k and all sequences of changing tables: each QueryWalker.get "
           "returns exactly k ids from the table continuing at the cursor and wrapping; an id present throughout is returned "
